@@ -198,7 +198,8 @@ class NumpyInterpreter:
         self.functions[name] = f
 
     def evaluate_condition(self, stmt):
-        return self.eval_mapper(stmt.condition)
+        # Nop statements have no condition.
+        return self.eval_mapper(getattr(stmt, "condition", True))
 
     # {{{ execution methods
 
